@@ -35,8 +35,8 @@ CONFIG = dict(
     },
     trivial=r"^(bad-op|r=(refused|none|-|ack:none|info) pub= upd= stop=0 sent= st=working)$",
     rule="cases generated from one PRNG (VERIF_SEED): hosted service sets of size 0-4 (scripted raw actors whose support answer is an "
-         "explicit op, real NodeServices answering ok / no / without listener, unreachable services) x StopNode regime of the recording INodeApp (completion later through an op / inside the call with true / with false) x provider latency (the real App.UpdateNodeState with a stub cluster provider whose k-th update takes 0-500 ms of virtual time: none / random / first slow then fast) x histories of up to 14 ops over "
-         "{stat, retire, exit, web_retire, web_exit, web_nodes, unknown commands, support answer ok/other by service i, retired by "
+         "explicit op, real NodeServices answering ok / no / "" (listener ignoring queryretire) / without listener, services unresolvable at start) x node service list read by the real App.FilterSelfServices from a generated config dir with unconfigured names first/middle/last x StopNode regime of the recording INodeApp (completion later through an op / inside the call with true / with false) x provider latency (the real App.UpdateNodeState with a stub cluster provider whose k-th update takes 0-500 ms of virtual time: none / random / first slow then fast) x histories of up to 14 ops over "
+         "{stat, retire, exit, web_retire, web_exit, web_nodes, unknown commands, support answer ok/other by service i, GetService(s_i) turning nil / back (unresolvable at retire time), retired by "
          "service i / unknown name / out-of-range index, other service commands, StopNode completion true/false, 40 s time-out}; two "
          "thirds of the cases follow the intended life cycle with random insertions, omissions and repetitions (so that exiting/exited "
          "are reached often), one third is uniformly random; thorough adds every history of length 6 over a 7-letter alphabet on two "
@@ -53,7 +53,8 @@ CONFIG = dict(
         "every command, notification, query answer and StopNode completion runs on the admin service goroutine one at a time (actor model)",
         "INodeApp.StopNode invokes its completion callback at most once per call (later, or inside the call: both regimes are modelled and driven)",
         "only the order in which publications reach the provider is observed, not their latency (an ordered asynchronous publisher would not be flagged)",
-        "hosted service names are distinct and FilterSelfServices enumerates the same set every time",
+        "hosted service names are distinct; the node configuration does not change while the node runs",
+        "the retire fan-out is best effort in the code (a service GetService cannot resolve at that moment is skipped): modelled as such, theorem retire_guard is conditional on resolvability",
         "a service 'declares support' by answering the controller's queryretire with exactly \"ok\" before the request times out (30 s)",
     ],
 )
